@@ -433,6 +433,10 @@ def add_zoo(first, pr_, want_cpp, pkg=None):
     znum = lambda: M.Prim(zr_.choice(["float32", "float64", "uint8", "int16", "int32", "uint64"]))
     zoo = [M.Vec(znum()), M.Vec(znum(), zr_.randint(1, 3)), M.Prim("string"), M.Opt(znum()), M.Arr(znum(), ((None, 2), (None, 2))),
            M.Vec(M.Prim("string")), M.Vec(M.Prim("bool")), M.Opt(M.Prim("string")), M.Vec(M.Vec(znum(), 2))]
+    if want_cpp:
+        # (yardl's C++ does not compile for vectors of bool - std::vector<bool> has no data(): C08, not claimed; with the
+        #  shape in the zoo half of the C++ models of C03 were discarded)
+        zoo = [t_ for t_ in zoo if t_ != M.Vec(M.Prim("bool"))]
     if not want_cpp:
         zoo += [M.Vec(M.Opt(znum())), M.Map(M.Prim("string"), znum()), M.Union((("int32", M.Prim("int32")), ("string", M.Prim("string")))),
                 M.Arr(znum(), None), M.Opt(M.Arr(znum(), 1)), M.Vec(M.Prim(zr_.choice(["complexfloat32", "datetime", "date"]))),
